@@ -1076,3 +1076,162 @@ Proof.
     by (unfold links; by rewrite H).
   vm_compute in Hl. discriminate.
 Qed.
+
+(** ** Attachment order: detach removes exactly the named links and keeps the others in
+    their order; attach only appends *)
+Definition lk (att : gmap N (list N)) (a : N) : list N := default [] (att !! a).
+Definition link_pairs (es : list entry) : list (N * N) := map (λ e, (e_acct e, e_pool e)) es.
+
+Lemma lk_NoDup att a : nodup_att att → NoDup (lk att a).
+Proof.
+  intros Hn. unfold lk. destruct (att !! a) as [l|] eqn:E; simpl; [by apply (Hn _ _ E)|apply NoDup_nil_2].
+Qed.
+
+Lemma filter_all {A} (P : A → Prop) `{!∀ x, Decision (P x)} (l : list A) :
+  (∀ x, x ∈ l → P x) → filter P l = l.
+Proof.
+  induction l as [|x l IH]; intros Hall; [done|].
+  rewrite filter_cons_True by (apply Hall; left). rewrite IH; [done|]. intros y Hy. apply Hall. by right.
+Qed.
+
+Lemma remove_first_filter p l : NoDup l → remove_first p l = filter (λ q, q ≠ p) l.
+Proof.
+  induction 1 as [|x l Hx Hl IH]; simpl; [done|].
+  destruct (decide (x = p)) as [->|Hne].
+  - rewrite filter_cons_False by (intros H; by apply H).
+    symmetry. apply filter_all. intros y Hy ->. contradiction.
+  - rewrite filter_cons_True by done. by rewrite IH.
+Qed.
+
+Lemma lk_detach_one att e a :
+  lk (detach_one att e) a =
+  if decide (a = e_acct e) then remove_first (e_pool e) (lk att a) else lk att a.
+Proof.
+  unfold detach_one, lk.
+  destruct (decide (remove_first (e_pool e) (default [] (att !! e_acct e)) = [])) as [He|He];
+    destruct (decide (a = e_acct e)) as [->|Hne].
+  - by rewrite lookup_delete, He.
+  - by rewrite lookup_delete_ne.
+  - by rewrite lookup_insert.
+  - by rewrite lookup_insert_ne.
+Qed.
+
+Lemma detach_links es : ∀ att a, nodup_att att →
+  lk (fold_left detach_one es att) a = filter (λ q, (a, q) ∉ link_pairs es) (lk att a).
+Proof.
+  induction es as [|e es IH]; intros att a Hn; simpl.
+  - symmetry. apply filter_all. intros q _. apply not_elem_of_nil.
+  - rewrite IH by (by apply detach_one_nodup). rewrite lk_detach_one.
+    destruct (decide (a = e_acct e)) as [->|Hne].
+    + rewrite remove_first_filter by (by apply lk_NoDup). rewrite list_filter_filter.
+      apply list_filter_iff. intros q. rewrite not_elem_of_cons. split.
+      * intros [H1 H2]. split; [congruence|done].
+      * intros [H1 H2]. split; [done|]. intros ->. by apply H1.
+    + apply list_filter_iff. intros q. rewrite not_elem_of_cons. split.
+      * intros H. split; [congruence|done].
+      * by intros [_ H].
+Qed.
+
+(** *** C15_detach_preserves_order *)
+Theorem detach_preserves_order s es s' evs r :
+  inv s → step s (Detach es) = (s', (evs, r)) →
+  (r = RErr → ∀ a, links s' a = links s a) ∧
+  (r ≠ RErr → ∀ a, links s' a = filter (λ q, (a, q) ∉ link_pairs es) (links s a)).
+Proof.
+  intros Hi H. apply step_cases in H.
+  destruct H as [-> _ ->| ? ? ? ? ? ? Ho _ _ _ _
+                | pool cid deps existing rev bs payload Ho _ _ _ _
+                | es' Ho _ _ _ _ _ _ | es' Ho _ _ _ -> _ ->
+                | a tok sector cost s1 Ho _ _ _ _ _ _
+                | a tok sector cost s1 Ho _ _ _ _ _]; try done.
+  - destruct Ho as [(Ho & _)|(? & ? & ? & Ho & _)]; done.
+  - inversion Ho; subst es'. split; [done|]. intros _ a.
+    apply (detach_links es (attached s) a). exact (inv_nodup s Hi).
+  - destruct Ho as [Ho|Ho]; done.
+Qed.
+
+(** the single-entry reading: the named link disappears, the links before and after it
+    stay where they were *)
+Theorem detach_single_link s e s' evs r a p pre post :
+  inv s → step s (Detach [e]) = (s', (evs, r)) → r ≠ RErr →
+  e_acct e = a → e_pool e = p → links s a = pre ++ p :: post →
+  links s' a = pre ++ post ∧ ∀ b, b ≠ a → links s' b = links s b.
+Proof.
+  intros Hi H Hr Ha Hp Hl.
+  destruct (detach_preserves_order _ _ _ _ _ Hi H) as [_ Hd]. specialize (Hd Hr).
+  pose proof (links_NoDup s a Hi) as Hnd. rewrite Hl in Hnd.
+  apply NoDup_app in Hnd as (Hpre & Hdis & Hpost). apply NoDup_cons in Hpost as [Hpp Hpost].
+  split.
+  - rewrite Hd, Hl. unfold link_pairs. simpl. rewrite Ha, Hp.
+    rewrite filter_app, filter_cons_False by (intros Hn; apply Hn; left).
+    rewrite !filter_all; [done| |];
+      (intros q Hq Hin; apply elem_of_list_singleton in Hin; inversion Hin; subst;
+       first [contradiction | eapply Hdis; [exact Hq|left]]).
+  - intros b Hb. rewrite Hd. apply filter_all. intros q _ Hin.
+    unfold link_pairs in Hin. simpl in Hin. apply elem_of_list_singleton in Hin. inversion Hin. congruence.
+Qed.
+
+Lemma lk_attach_one att e a :
+  lk (attach_one att e) a =
+  if decide (a = e_acct e) then
+    (if decide (e_pool e ∈ lk att a) then lk att a else lk att a ++ [e_pool e])
+  else lk att a.
+Proof.
+  unfold attach_one, lk. case_bool_decide as Hin.
+  - destruct (decide (a = e_acct e)) as [->|Hne]; [|done]. by rewrite decide_True.
+  - destruct (decide (a = e_acct e)) as [->|Hne].
+    + rewrite lookup_insert. simpl. by rewrite decide_False.
+    + by rewrite lookup_insert_ne.
+Qed.
+
+Lemma attach_links es : ∀ att a,
+  lk att a `prefix_of` lk (fold_left attach_one es att) a ∧
+  ∀ q, q ∈ lk (fold_left attach_one es att) a ↔ q ∈ lk att a ∨ (a, q) ∈ link_pairs es.
+Proof.
+  induction es as [|e es IH]; intros att a; simpl.
+  - split; [done|]. intros q. split; [by left|]. intros [H|H]; [done|by apply elem_of_nil in H].
+  - destruct (IH (attach_one att e) a) as [Hpre Hmem].
+    pose proof (lk_attach_one att e a) as Hone.
+    split.
+    + etrans; [|exact Hpre]. rewrite Hone.
+      destruct (decide (a = e_acct e)); [|done].
+      destruct (decide (e_pool e ∈ lk att a)); [done|]. by apply prefix_app_r.
+    + intros q. rewrite Hmem, Hone, elem_of_cons.
+      destruct (decide (a = e_acct e)) as [->|Hne].
+      * destruct (decide (e_pool e ∈ lk att (e_acct e))) as [Hin|Hnin].
+        -- split; [intros [H|H]; auto|]. intros [H|[H|H]]; auto. inversion H; subst. by left.
+        -- rewrite elem_of_app, elem_of_list_singleton.
+           split; [intros [[H|H]|H]; auto; subst; right; by left|].
+           intros [H|[H|H]]; auto. inversion H; subst. left. by right.
+      * split; [intros [H|H]; auto|]. intros [H|[H|H]]; auto. inversion H; subst. done.
+Qed.
+
+(** *** C15_attach_appends: an attach never reorders what is attached; it adds exactly the
+    requested links, behind the existing ones *)
+Theorem attach_appends s es s' evs r :
+  step s (Attach es) = (s', (evs, r)) →
+  ∀ a, links s a `prefix_of` links s' a ∧
+       ∀ q, q ∈ links s' a ↔ q ∈ links s a ∨ (r ≠ RErr ∧ (a, q) ∈ link_pairs es).
+Proof.
+  intros H a. apply step_cases in H.
+  destruct H as [-> _ ->| ? ? ? ? ? ? Ho _ _ _ _
+                | pool cid deps existing rev bs payload Ho _ _ _ _
+                | es' Ho _ _ _ -> _ -> | es' Ho _ _ _ _ _ _
+                | a' tok sector cost s1 Ho _ _ _ _ _ _
+                | a' tok sector cost s1 Ho _ _ _ _ _]; try done.
+  - split; [done|]. intros q. split; [by left|]. by intros [H|[H _]].
+  - destruct Ho as [(Ho & _)|(? & ? & ? & Ho & _)]; done.
+  - inversion Ho; subst es'. destruct (attach_links es (attached s) a) as [Hp Hm].
+    split; [exact Hp|]. intros q. unfold links; simpl. fold (lk (fold_left attach_one es (attached s)) a).
+    rewrite Hm. unfold lk. split; [intros [H|H]; auto|]. intros [H|[_ H]]; auto.
+  - destruct Ho as [Ho|Ho]; done.
+Qed.
+
+(** non-vacuity: detaching the first of two links keeps the second; attaching appends *)
+Example ex_detach_keeps_order :
+  links ex_s 1 = [3%N; 4%N] ∧
+  links (step ex_s (Detach [Entry 1 3 2 false (Sig 1 (MDetach 1 3 2))])).1 1 = [4%N] ∧
+  (step ex_s (Detach [Entry 1 3 2 false (Sig 1 (MDetach 1 3 2))])).2.2 ≠ RErr ∧
+  links (step ex_s (Attach [Entry 2 4 1 false (Sig 4 (MAttach 2 4 1)); Entry 2 3 1 false (Sig 3 (MAttach 2 3 1))])).1 2
+    = [4%N; 3%N].
+Proof. vm_compute. repeat split; discriminate. Qed.
